@@ -244,6 +244,9 @@ def worker(case: Dict[str, Any]) -> CaseResult:
             cfg_l["plugins"] = plist
             cfg_l["target_package_name"] = name
             cfg_l["include_comments"] = "stable"
+            if case.get("eo_module") and EO in plist:
+                cfg_l["extract-operations"] = {"operations_module_name": case["eo_module"]}  # the plugin's own documented option
+                feats.add("plugin.extract_operations.module_name")
             cfg = write_case(root, sdl, queries, cfg_l, extra_files=extra_files or None, section_style=case.get("section_style", "tool"))
             from pathlib import Path
             from types import SimpleNamespace
@@ -330,7 +333,7 @@ def worker(case: Dict[str, Any]) -> CaseResult:
                                                         mech="c15:shorter-many:" + label))
             # plugin-specific observations
             if EO in plist:
-                opm = sys.modules.get(res["pkg"].__name__ + ".operations")
+                opm = sys.modules.get(res["pkg"].__name__ + "." + (case.get("eo_module") or "operations"))
                 count("extract_operations_checks")
                 if opm is None:
                     violations.append(Violation(PROP, "extract-operations-module", "[%s] no operations module" % label, fl, replay_case, mech="c15:extract-module:" + label))
@@ -465,6 +468,8 @@ def run(tier: str, seed: int) -> int:
         c["plugin_lists"] = pl
         if i % 4 == 1:
             c["section_style"] = "plain"  # the deprecated top-level [ariadne-codegen] table: plugins read their settings from the same place as the generator
+        if i % 6 == 4:
+            c["eo_module"] = ["gql_docs", "operations_py", "Documents"][(i // 6) % 3]
         if i % 3 == 2:
             c["scalars"] = True
             c["dirty"] = sorted(set(c.get("dirty", [])) | {"schema.force_scalar"})
